@@ -60,8 +60,8 @@ pub fn hs_strategy() -> BoxedStrategy<Hs> {
 }
 
 pub fn flow_strategy(max: u32, max_ops: usize) -> BoxedStrategy<FlowScript> {
-    (hs_strategy(), len_strategy(max), proptest::collection::vec(op_strategy(max), 0..=max_ops), ending_strategy(max), prop_oneof![3 => Just(0u16), 1 => 20u16..250])
-        .prop_map(|(hs, first, ops, ending, slow_reader_ms)| FlowScript { hs, first, ops, ending, slow_reader_ms })
+    (hs_strategy(), len_strategy(max), proptest::collection::vec(op_strategy(max), 0..=max_ops), ending_strategy(max), prop_oneof![3 => Just(0u16), 1 => 20u16..250], prop_oneof![39 => Just(0u16), 1 => 5200u16..7500])
+        .prop_map(|(hs, first, ops, ending, slow_reader_ms, idle_ms)| FlowScript { hs, first, ops, ending, slow_reader_ms, idle_ms })
         .boxed()
 }
 
@@ -126,6 +126,9 @@ fn classify(c: &Case, reports: &[(usize, usize, bool)]) -> (bool, Vec<String>) {
     }
     if c.flows.iter().any(|f| f.slow_reader_ms > 0) {
         labels.push("slow-reader-at-close".into());
+    }
+    if c.flows.iter().any(|f| f.idle_ms > 0) {
+        labels.push("idle-period-of-5-to-7-s".into());
     }
     labels.push(format!("flows:{}", match c.flows.len() { 1 => "1", 2..=4 => "2-4", 5..=8 => "5-8", _ => ">8" }));
     if c.tap.is_some() {
@@ -196,20 +199,22 @@ pub fn exec_once(c: &Case) -> CaseResult {
 
 /// A failure decided by a deadline is confirmed on two more fresh clusters before it is reported.
 pub fn exec_confirmed(c: &Case) -> (CaseResult, u32) {
-    let mut r = exec_once(c);
-    let mut reruns = 0;
-    while let Some(f) = &r.fail {
-        if !f.soft || reruns >= 2 || rt::failed_already() {
-            break;
-        }
-        reruns += 1;
-        let r2 = exec_once(c);
-        if r2.fail.is_none() {
-            return (r2, reruns);
-        }
-        r = r2;
+    // A failure decided by a deadline is reported when it shows in at least two of three executions on fresh clusters
+    // (the first one and one of two re-runs): a one-off deadline miss of the machine is not reported, a defect that
+    // depends on the implementation's own randomness (one flow in twenty) still is.
+    let r = exec_once(c);
+    let Some(f) = &r.fail else { return (r, 0) };
+    if !f.soft || rt::failed_already() {
+        return (r, 0);
     }
-    (r, reruns)
+    let mut last = exec_once(c);
+    if last.fail.is_none() {
+        last = exec_once(c);
+    }
+    if last.fail.is_none() {
+        last.labels.push("deadline-miss-not-confirmed".into());
+    }
+    (last, 2)
 }
 
 pub fn outcome_of(prefix: &str, c: &Case) -> Outcome {
@@ -218,9 +223,6 @@ pub fn outcome_of(prefix: &str, c: &Case) -> Outcome {
     out.weight = c.flows.len() as u64;
     for l in r.labels {
         out.label(l);
-    }
-    if reruns > 0 && r.fail.is_none() {
-        out.label("deadline-miss-not-confirmed");
     }
     if r.nontrivial {
         let sizes: Vec<String> = c.flows.iter().map(|f| format!("{}:{}", f.hs.name(), f.ops.len())).collect();
@@ -331,18 +333,20 @@ impl SubCheck for ColdUpload {
     }
     fn exec(&self, c: &ColdCase) -> Outcome {
         let (mut fail, mut labels) = cold_once(c);
-        let mut reruns = 0;
-        while let Some(f) = &fail {
-            if !f.soft || reruns >= 2 || rt::failed_already() {
-                break;
-            }
-            reruns += 1;
+        // two of three executions on fresh clusters must fail before a deadline-decided failure is reported
+        if fail.as_ref().map(|f| f.soft).unwrap_or(false) && !rt::failed_already() {
             let (f2, l2) = cold_once(c);
-            labels = l2;
-            if f2.is_none() {
-                labels.push("deadline-miss-not-confirmed".into());
+            if f2.is_some() {
+                fail = f2;
+                labels = l2;
+            } else {
+                let (f3, mut l3) = cold_once(c);
+                if f3.is_none() {
+                    l3.push("deadline-miss-not-confirmed".into());
+                }
+                fail = f3;
+                labels = l3;
             }
-            fail = f2;
         }
         let mut out = Outcome::new();
         out.weight = (c.uploads.len() + c.busy_answers.len()).max(1) as u64;
